@@ -89,6 +89,7 @@ pub struct SimReader<'a> {
     pub hard_after_mib: bool,
     /// some read on a non-empty buffer returned Ok(0): the only way a caller can learn that the stream ended
     pub signalled_eof: bool,
+    pub post_eof_calls: u64,
 }
 
 impl<'a> SimReader<'a> {
@@ -101,7 +102,7 @@ impl<'a> SimReader<'a> {
             drain: h.drain,
             scribble: h.scribble,
             calls: 0,
-            budget: 4 * h.script.len() as u64 + 64 + if h.drain > 0 { (data.len() as u64) / (h.drain.max(1) as u64).min(MIB as u64) + 8 } else { 0 },
+            budget: 64,
             eof: false,
             min_buf: usize::MAX,
             max_buf: 0,
@@ -117,6 +118,7 @@ impl<'a> SimReader<'a> {
             exact_mib_read: false,
             hard_after_mib: false,
             signalled_eof: false,
+            post_eof_calls: 0,
         }
     }
     fn deliver(&mut self, buf: &mut [u8], k: usize) -> usize {
@@ -148,8 +150,14 @@ impl Read for SimReader<'_> {
 impl SimReader<'_> {
     fn read_inner(&mut self, buf: &mut [u8]) -> io::Result<usize> {
         self.calls += 1;
-        if self.calls > self.budget {
-            panic!("SIM-BUDGET: reader called {} times, budget {}", self.calls, self.budget);
+        // Liveness: the script and the data are finite, so every caller -- whatever its buffer size or retry policy --
+        // reaches the point where the reader has signalled end of stream.  From then on at most `budget` further calls
+        // are tolerated (a correct caller stops at the first Ok(0); one that keeps polling forever is "no progress").
+        if self.signalled_eof {
+            self.post_eof_calls += 1;
+            if self.post_eof_calls > self.budget {
+                panic!("SIM-BUDGET: reader called {} more times after it had signalled end of stream", self.post_eof_calls);
+            }
         }
         self.min_buf = self.min_buf.min(buf.len());
         self.max_buf = self.max_buf.max(buf.len());
